@@ -35,13 +35,14 @@ type c06TConn struct {
 	evs      []c06TEv
 	nextAt   time.Time // arrival instant of evs[0]
 	deadline time.Time
+	start    time.Time
 	noDL     bool // plain reader: deadlines unsupported (async path)
 	written  []byte
 	closed   bool
 }
 
 func newC06TConn(start time.Time, evs []c06TEv) *c06TConn {
-	c := &c06TConn{evs: evs}
+	c := &c06TConn{evs: evs, start: start}
 	if len(evs) > 0 {
 		c.nextAt = start.Add(time.Duration(evs[0].delay) * time.Millisecond)
 	} else {
@@ -62,6 +63,11 @@ func (c *c06TConn) Read(p []byte) (int, error) {
 	for {
 		now := time.Now()
 		armed := !c.deadline.IsZero()
+		if now.Sub(c.start) > 5*time.Second {
+			// a sniffer still reading five (virtual) seconds after its creation - 20x the longest
+			// timeout - never stops by itself: end it
+			return 0, errors.New("c06: connection given up after 5 s")
+		}
 		if armed && !now.Before(c.deadline) {
 			return 0, c06TimeoutErr{}
 		}
